@@ -67,13 +67,26 @@ theorem splitFirst_dot {a b : Str} (h : '.' ∉ a) : splitFirst '.' (a ++ '.' ::
 theorem mem_dot_reject {pyInt : Str → Option Int} (hI : IntLaw pyInt) (a b : Str) : pyInt (a ++ '.' :: b) = none :=
   hI.reject _ ⟨'.', by simp, Or.inl rfl⟩
 
-/-- the `aaaa.bbbb` form on `A.B` with `A` read by `int()` as `sa` and `B` a digit string -/
-theorem parseTimestamp_frac (P : Params) (hI : IntLaw P.pyInt) (a b : Str) (sa : Int)
-    (hts : NumTok (a ++ '.' :: b)) (hdot : '.' ∉ a) (ha : P.pyInt a = some sa)
-    (hb : b ≠ []) (hbd : b.all isDigit = true) :
-    parseTimestamp P (a ++ '.' :: b) =
-      .ok (some (.stamp sa (if sa < 0 then -(((parseDigits (nineDigits b) : Nat) : Int)) else ((parseDigits (nineDigits b) : Nat) : Int)))) := by
-  rw [parseTimestamp_numTok P hts, intE_none (mem_dot_reject hI a b)]
+theorem tsFracStrict_on : Generated.OMParse.tsFracStrict = true := by decide
+
+/-- the strictness tests pass: the fraction is an integer literal and the text is not `-0.…` -/
+theorem fracStrict_ok (P : Params) {sec : Int} {p0 p1 : Str} {m : Int} (h1 : P.pyInt p1 = some m)
+    (h2 : (sec == 0 && p0.head? == some '-') = false) : fracStrictChecks P sec p0 p1 = .ok () := by
+  unfold fracStrictChecks
+  simp only [tsFracStrict_on, ↓reduceIte, intE_some h1, h2, Bool.false_eq_true]
+
+theorem fracStrict_reject (P : Params) (sec : Int) (p0 : Str) {p1 : Str} (h1 : P.pyInt p1 = none) :
+    fracStrictChecks P sec p0 p1 = .error .valueError := by
+  unfold fracStrictChecks
+  simp only [tsFracStrict_on, ↓reduceIte, intE_none h1]
+
+theorem fracStrict_sign (P : Params) {sec : Int} {p0 p1 : Str} {m : Int} (h1 : P.pyInt p1 = some m)
+    (h2 : (sec == 0 && p0.head? == some '-') = true) : fracStrictChecks P sec p0 p1 = .error .valueError := by
+  unfold fracStrictChecks
+  simp only [tsFracStrict_on, ↓reduceIte, intE_some h1, h2]
+
+theorem nine_facts {b : Str} (hbd : b.all isDigit = true) :
+    (nineDigits b).all isDigit = true ∧ nineDigits b ≠ [] ∧ parseDigits (nineDigits b) < 1000000000 := by
   have hnine : (nineDigits b).all isDigit = true := by
     unfold nineDigits
     apply List.all_eq_true.mpr
@@ -86,16 +99,52 @@ theorem parseTimestamp_frac (P : Params) (hI : IntLaw P.pyInt) (a b : Str) (sa :
   have hne : nineDigits b ≠ [] := by intro e; rw [e] at hlen; simp at hlen
   have hlt : parseDigits (nineDigits b) < 1000000000 := by
     have := parseDigits_lt _ hnine; rw [hlen] at this; simpa using this
+  exact ⟨hnine, hne, hlt⟩
+
+/-- the `aaaa.bbbb` form on `A.B` with `A` read by `int()` as `sa` and `B` a digit string, not of the shape `-0.…` -/
+theorem parseTimestamp_frac (P : Params) (hI : IntLaw P.pyInt) (a b : Str) (sa : Int)
+    (hts : NumTok (a ++ '.' :: b)) (hdot : '.' ∉ a) (ha : P.pyInt a = some sa)
+    (hb : b ≠ []) (hbd : b.all isDigit = true) (hsign : (sa == 0 && a.head? == some '-') = false) :
+    parseTimestamp P (a ++ '.' :: b) =
+      .ok (some (.stamp sa (if sa < 0 then -(((parseDigits (nineDigits b) : Nat) : Int)) else ((parseDigits (nineDigits b) : Nat) : Int)))) := by
+  rw [parseTimestamp_numTok P hts, intE_none (mem_dot_reject hI a b)]
+  obtain ⟨hnine, hne, hlt⟩ := nine_facts hbd
   have hfrac : parseTimestampFrac P (a ++ '.' :: b) =
       .ok (.stamp sa (if sa < 0 then -(((parseDigits (nineDigits b) : Nat) : Int)) else ((parseDigits (nineDigits b) : Nat) : Int))) := by
     unfold parseTimestampFrac
     rw [splitFirst_dot hdot]
-    simp only [intE_some ha, bind, Except.bind, ← nineDigits_eq, intE_some (hI.digits _ hne hnine)]
+    simp only [intE_some ha, fracStrict_ok P (hI.digits b hb hbd) hsign, ← nineDigits_eq, intE_some (hI.digits _ hne hnine)]
     unfold mkTimestamp
     have h1 : ¬ (((parseDigits (nineDigits b) : Nat) : Int) < 0) := by omega
     have h2 : ¬ (((parseDigits (nineDigits b) : Nat) : Int) ≥ 1000000000) := by omega
     simp [h1, h2]
   simp only [bind, Except.bind, catch_ve, hfrac, catch_ok]
+  rfl
+
+/-- `-0.…`: the `aaaa.bbbb` form declines, `float()` reads the text -/
+theorem parseTimestamp_negzero (P : Params) (hI : IntLaw P.pyInt) (a b : Str) (bb : Nat)
+    (hts : NumTok ('-' :: a ++ '.' :: b)) (ha : a ≠ []) (had : a.all isDigit = true) (hz : parseDigits a = 0)
+    (hb : b ≠ []) (hbd : b.all isDigit = true)
+    (hf : P.pyFloat ('-' :: a ++ '.' :: b) = some bb) (hnan : P.isNaN bb = false) (hinf : P.isInf bb = false) :
+    parseTimestamp P ('-' :: a ++ '.' :: b) = .ok (some (.flt bb)) := by
+  have hdot : '.' ∉ '-' :: a := by
+    intro hm
+    rcases List.mem_cons.mp hm with h | h
+    · exact absurd h (by decide)
+    · exact dot_not_mem_digits had h
+  have hint : P.pyInt ('-' :: a) = some (-((parseDigits a : Nat) : Int)) := hI.neg a ha had
+  rw [show '-' :: a ++ '.' :: b = ('-' :: a) ++ '.' :: b by simp] at hts hf ⊢
+  rw [parseTimestamp_numTok P hts, intE_none (mem_dot_reject hI _ b)]
+  have hfrac : parseTimestampFrac P (('-' :: a) ++ '.' :: b) = .error .valueError := by
+    unfold parseTimestampFrac
+    rw [splitFirst_dot hdot]
+    simp only [intE_some hint]
+    rw [fracStrict_sign P (hI.digits b hb hbd) (by simp [hz])]
+  have hflt : parseTimestampFloat P (('-' :: a) ++ '.' :: b) = .ok (.flt bb) := by
+    unfold parseTimestampFloat
+    rw [floatE_some hf]
+    simp [hnan, hinf, bind, Except.bind, pure, Except.pure]
+  simp only [bind, Except.bind, catch_ve, hfrac, hflt]
   rfl
 
 theorem decDigits_ne_nil (k : Nat) : decDigits k ≠ [] := by
@@ -132,13 +181,38 @@ theorem nineDigits_of_nine {d : Str} (h : d.length = 9) : nineDigits d = d := by
   unfold nineDigits
   rw [List.take_append_of_le_length (by omega), List.take_of_length_le (by omega)]
 
-/-- second form: `Timestamp.__str__` for a non-negative nanosecond field -/
-theorem parseTimestamp_stamp (P : Params) (hI : IntLaw P.pyInt) (s : Int) (k : Nat) (hk : k < 1000000000) :
-    parseTimestamp P (stampStr s ((k : Int))) = .ok (some (.stamp s (if s < 0 then -((k : Int)) else (k : Int)))) := by
+theorem intStr_sign_false (s : Int) : (s == 0 && (intStr s).head? == some '-') = false := by
+  cases s with
+  | ofNat k =>
+    have hd := allDigits_decDigits k
+    have hne := decDigits_ne_nil k
+    have : ((intStr (Int.ofNat k)).head? == some '-') = false := by
+      show ((decDigits k).head? == some '-') = false
+      cases hk : decDigits k with
+      | nil => exact absurd hk hne
+      | cons c cs =>
+        rw [hk] at hd
+        simp only [List.all_cons, Bool.and_eq_true] at hd
+        have : c ≠ '-' := by intro e; subst e; exact absurd hd.1 (by decide)
+        simpa using this
+    rw [this]; simp
+  | negSucc k => rfl
+
+theorem stampAbs_on : Generated.Expo.stampAbsNsec = true := by decide
+
+/-- `Timestamp.__str__` (with `abs(nsec)`, 7b52129): second count, a dot, nine digits of the magnitude of the nanosecond field -/
+theorem stampStr_eq (s n : Int) : OMExpo.stampStr s n = intStr s ++ '.' :: zpad 9 (decDigits n.natAbs) := by
+  unfold OMExpo.stampStr
+  cases n with
+  | ofNat k => simp
+  | negSucc k => simp [stampAbs_on, Int.natAbs]
+
+/-- second form: `Timestamp.__str__` — the magnitude `k` of the nanosecond field comes back with the sign of the seconds -/
+theorem parseTimestamp_stampText (P : Params) (hI : IntLaw P.pyInt) (s : Int) (k : Nat) (hk : k < 1000000000) :
+    parseTimestamp P (intStr s ++ '.' :: zpad 9 (decDigits k)) =
+      .ok (some (.stamp s (if s < 0 then -((k : Nat) : Int) else ((k : Nat) : Int)))) := by
   obtain ⟨hd, hlen, hval⟩ := zpad9_digits k hk
   have hb : zpad 9 (decDigits k) ≠ [] := by intro e; rw [e] at hlen; simp at hlen
-  have hstr : stampStr s ((k : Int)) = intStr s ++ '.' :: zpad 9 (decDigits k) := by
-    unfold stampStr; simp
   have htok : NumTok (intStr s ++ '.' :: zpad 9 (decDigits k)) := by
     refine ⟨by simp, ?_⟩
     intro c hc
@@ -147,12 +221,40 @@ theorem parseTimestamp_stamp (P : Params) (hI : IntLaw P.pyInt) (s : Int) (k : N
     · rcases List.mem_cons.mp h with h | h
       · subst h; decide
       · exact digit_numChar (List.all_eq_true.mp hd c h)
-  rw [hstr, parseTimestamp_frac P hI _ _ s htok (dot_not_mem_intStr s) (pyInt_intStr hI s) hb hd,
+  rw [parseTimestamp_frac P hI _ _ s htok (dot_not_mem_intStr s) (pyInt_intStr hI s) hb hd (intStr_sign_false s),
     nineDigits_of_nine hlen, hval]
 
-/-- third form, exponent spelling: the first two forms refuse it, `float()` reads it -/
+/-- **every `Timestamp` object (class invariant) is a fixed point of render-then-parse** -/
+theorem parseTimestamp_stamp (P : Params) (hI : IntLaw P.pyInt) (s n : Int)
+    (h1 : 0 ≤ s → 0 ≤ n ∧ n < 1000000000) (h2 : s < 0 → -1000000000 < n ∧ n ≤ 0) :
+    parseTimestamp P (OMExpo.stampStr s n) = .ok (some (.stamp s n)) := by
+  rw [stampStr_eq, parseTimestamp_stampText P hI s n.natAbs (by omega)]
+  congr 3
+  by_cases hs : s < 0
+  · have := h2 hs; simp only [hs, ↓reduceIte]; omega
+  · have := h1 (by omega); simp only [hs, ↓reduceIte]; omega
+
+theorem splitFirst_some_eq (c : Char) : ∀ (s a p : Str), splitFirst c s = (a, some p) → s = a ++ c :: p := by
+  intro s
+  induction s with
+  | nil => intro a p h; simp [splitFirst] at h
+  | cons x xs ih =>
+    intro a p h
+    unfold splitFirst at h
+    by_cases hx : x = c
+    · simp only [hx, ↓reduceIte, Prod.mk.injEq, Option.some.injEq] at h
+      obtain ⟨rfl, rfl⟩ := h
+      simp [hx]
+    · simp only [hx, ↓reduceIte] at h
+      cases hr : splitFirst c xs with
+      | mk a' p' =>
+        rw [hr] at h
+        simp only [Prod.mk.injEq] at h
+        obtain ⟨rfl, rfl⟩ := h
+        rw [ih a' p hr]; simp
+
+/-- third form, exponent spelling: the first two forms refuse it (`int()` rejects an 'e'), `float()` reads it -/
 theorem parseTimestamp_exp (P : Params) (hI : IntLaw P.pyInt) (r : Str) (b : Nat) (htok : NumTok r) (he : 'e' ∈ r)
-    (hshort : ∀ a p, splitFirst '.' r = (a, some p) → 'e' ∈ p.take 9)
     (hf : P.pyFloat r = some b) (hnan : P.isNaN b = false) (hinf : P.isInf b = false) :
     parseTimestamp P r = .ok (some (.flt b)) := by
   rw [parseTimestamp_numTok P htok, intE_none (hI.reject r ⟨'e', he, Or.inr (Or.inl rfl)⟩)]
@@ -162,11 +264,10 @@ theorem parseTimestamp_exp (P : Params) (hI : IntLaw P.pyInt) (r : Str) (b : Nat
     | mk a p? =>
       simp only []
       cases ha : P.pyInt a with
-      | none => simp [intE_none ha, bind, Except.bind]
+      | none => simp [intE_none ha]
       | some sa =>
         cases p? with
         | none =>
-          -- no '.' at all: the first part is the whole text
           have hr : a = r := by
             have hnm : '.' ∉ r := by
               intro hm
@@ -178,10 +279,16 @@ theorem parseTimestamp_exp (P : Params) (hI : IntLaw P.pyInt) (r : Str) (b : Nat
           rw [hr, hI.reject r ⟨'e', he, Or.inr (Or.inl rfl)⟩] at ha
           cases ha
         | some p =>
-          have hm := hshort a p hsp
-          have : P.pyInt (ljust 9 '0' (p.take 9)) = none :=
-            hI.reject _ ⟨'e', by unfold ljust; exact List.mem_append_left _ hm, Or.inr (Or.inl rfl)⟩
-          simp [intE_some ha, intE_none this, bind, Except.bind]
+          have hr := splitFirst_some_eq '.' r a p hsp
+          have hep : 'e' ∈ p := by
+            rw [hr] at he
+            rcases List.mem_append.mp he with h | h
+            · rw [hI.reject a ⟨'e', h, Or.inr (Or.inl rfl)⟩] at ha; cases ha
+            · rcases List.mem_cons.mp h with h | h
+              · exact absurd h (by decide)
+              · exact h
+          simp only [intE_some ha]
+          rw [fracStrict_reject P sa a (hI.reject p ⟨'e', hep, Or.inr (Or.inl rfl)⟩)]
   have hflt : parseTimestampFloat P r = .ok (.flt b) := by
     unfold parseTimestampFloat
     simp [floatE_some hf, hnan, hinf, bind, Except.bind, pure, Except.pure]
@@ -247,9 +354,9 @@ theorem numTok_plain (neg : Bool) (a b : Str) (had : a.all isDigit = true) (hbd 
     · subst h; decide
     · exact digit_numChar (List.all_eq_true.mp hbd c h)
 
-/-- third form, plain decimal spelling: read by the `aaaa.bbbb` branch -/
+/-- third form, plain decimal spelling, not `-0.…`: read by the `aaaa.bbbb` branch -/
 theorem parseTimestamp_plain (P : Params) (hI : IntLaw P.pyInt) (neg : Bool) (a b : Str) (ha : a ≠ [])
-    (had : a.all isDigit = true) (hb : b ≠ []) (hbd : b.all isDigit = true) :
+    (had : a.all isDigit = true) (hb : b ≠ []) (hbd : b.all isDigit = true) (hnz : ¬ (neg = true ∧ parseDigits a = 0)) :
     parseTimestamp P ((if neg then ['-'] else []) ++ a ++ '.' :: b) =
       .ok (some (.stamp (if neg then -((parseDigits a : Nat) : Int) else ((parseDigits a : Nat) : Int))
         (if (if neg then -((parseDigits a : Nat) : Int) else ((parseDigits a : Nat) : Int)) < 0
@@ -264,45 +371,50 @@ theorem parseTimestamp_plain (P : Params) (hI : IntLaw P.pyInt) (neg : Bool) (a 
     cases neg
     · simpa using hI.digits a ha had
     · simpa using hI.neg a ha had
-  exact parseTimestamp_frac P hI _ b _ (numTok_plain neg a b had hbd) hdot hint hb hbd
+  have hsign : ((if neg then -((parseDigits a : Nat) : Int) else ((parseDigits a : Nat) : Int)) == 0 &&
+      ((if neg then ['-'] else []) ++ a).head? == some '-') = false := by
+    cases neg with
+    | false =>
+      have := digits_head_ne_minus ha had
+      simp only [Bool.false_eq_true, ↓reduceIte, List.nil_append, this, Bool.and_false]
+    | true =>
+      have hz : parseDigits a ≠ 0 := fun e => hnz ⟨rfl, e⟩
+      have : ((-((parseDigits a : Nat) : Int)) == 0) = false := by
+        apply beq_eq_false_iff_ne.mpr; omega
+      simp only [↓reduceIte, this, Bool.false_and]
+  exact parseTimestamp_frac P hI _ b _ (numTok_plain neg a b had hbd) hdot hint hb hbd hsign
 
-/-- **the three timestamp forms read back to the denoted value** -/
+/-- **the three timestamp forms read back to the same instant** -/
 theorem ts_roundtrip (P : Params) (hI : IntLaw P.pyInt) (t : Ts) (h : TsOK P t) :
-    ∃ o, parseTimestamp P (tsStr t) = .ok (some o) ∧ tsDenote P.pyFloat t = some (otsDenote o) := by
+    ∃ o, parseTimestamp P (OMExpo.tsStr t) = .ok (some o) ∧ tsSame P t o := by
   cases t with
-  | int n => exact ⟨.stamp n 0, parseTimestamp_int P hI n, by simp [tsDenote, otsDenote]⟩
+  | int n => exact ⟨.stamp n 0, parseTimestamp_int P hI n, Or.inl (by simp [tsDenote, otsDenote])⟩
   | stamp s n =>
-    obtain ⟨h0, h1, h2⟩ := h
-    obtain ⟨k, rfl⟩ := Int.eq_ofNat_of_zero_le h0
-    have hk : k < 1000000000 := by simp only [nsPerSec] at h1; omega
-    refine ⟨_, parseTimestamp_stamp P hI s k hk, ?_⟩
-    simp only [tsDenote, otsDenote]
-    by_cases hs : s < 0
-    · have := h2 hs
-      simp [hs]; omega
-    · simp [hs]
+    obtain ⟨h1, h2⟩ := h
+    simp only [nsPerSec] at h1 h2
+    exact ⟨.stamp s n, parseTimestamp_stamp P hI s n h1 (fun hs => by have := h2 hs; omega), Or.inl rfl⟩
   | flt r =>
-    rcases h with ⟨neg, a, b, rfl, ha, had, hb, hbd, hsign⟩ | ⟨he, hne, hc, hshort, bb, hf, hnan, hinf⟩
-    · refine ⟨_, parseTimestamp_plain P hI neg a b ha had hb hbd, ?_⟩
-      simp only [tsDenote, e_not_mem_plain neg a b had hbd, Bool.false_eq_true, ↓reduceIte,
-        decimalNanos_plain neg a b ha had hb hbd, Option.map_some, otsDenote, nsPerSec]
-      congr 2
-      cases neg with
-      | false =>
-        have : ¬ (((parseDigits a : Nat) : Int) < 0) := by omega
-        simp [this]
-      | true =>
-        simp only [↓reduceIte]
-        by_cases hz : parseDigits a = 0
-        · have hB : parseDigits (nineDigits b) = 0 := by
-            by_cases hB : parseDigits (nineDigits b) = 0
-            · exact hB
-            · exact absurd ⟨rfl, hz, hB⟩ hsign
-          simp [hz, hB]
-        · have : (-((parseDigits a : Nat) : Int) < 0) := by omega
-          simp only [this, ↓reduceIte]
+    rcases h with ⟨neg, a, b, rfl, ha, had, hb, hbd, hzero⟩ | ⟨he, hne, hc, bb, hf, hnan, hinf⟩
+    · by_cases hnz : neg = true ∧ parseDigits a = 0
+      · obtain ⟨rfl, hz⟩ := hnz
+        obtain ⟨bb, hf, hnan, hinf⟩ := hzero rfl hz
+        have htok := numTok_plain true a b had hbd
+        simp only [↓reduceIte, List.cons_append, List.nil_append] at htok hf ⊢
+        refine ⟨.flt bb, ?_, Or.inr ⟨_, bb, rfl, rfl, hf⟩⟩
+        exact parseTimestamp_negzero P hI a b bb htok ha had hz hb hbd hf hnan hinf
+      · refine ⟨_, parseTimestamp_plain P hI neg a b ha had hb hbd hnz, Or.inl ?_⟩
+        simp only [tsDenote, e_not_mem_plain neg a b had hbd, Bool.false_eq_true, ↓reduceIte,
+          decimalNanos_plain neg a b ha had hb hbd, Option.map_some, otsDenote, nsPerSec]
+        congr 2
+        cases neg with
+        | false =>
+          have : ¬ (((parseDigits a : Nat) : Int) < 0) := by omega
+          simp [this]
+        | true =>
+          have hz : parseDigits a ≠ 0 := fun e => hnz ⟨rfl, e⟩
+          have : (-((parseDigits a : Nat) : Int) < 0) := by omega
+          simp only [↓reduceIte, this]
           omega
-    · refine ⟨.flt bb, parseTimestamp_exp P hI r bb (numTok_of_chars hne hc) he hshort hf hnan hinf, ?_⟩
-      simp [tsDenote, he, hf, otsDenote]
+    · exact ⟨.flt bb, parseTimestamp_exp P hI r bb (numTok_of_chars hne hc) he hf hnan hinf, Or.inr ⟨r, bb, rfl, rfl, hf⟩⟩
 
 end PromVerif.Lemmas.OMRt
